@@ -411,19 +411,17 @@ def check_apply_op(sc, obs, opi, add):
                 if len(cbs[i]) != 1 or cbs[i][0][0] != 'ecb':
                     add('C09', 'exactly_one_callback', {'task': i, 'callbacks': cbs[i]})
                 continue
-        if i in f.get('at', ()):
-            want = ('raise', expected_exc_types(op))
-        elif slow:
-            want = ('raise', 'TimeoutError')
-        else:
-            want = ('ok', value_of(i))
-        if slow and op.get('cb_dur') and float(dur.get(str(i), 0)) < 100 and (kind, val) == ('ok', value_of(i)):
+        natural = ('raise', expected_exc_types(op)) if i in f.get('at', ()) else ('ok', value_of(i))
+        # (the task function sleeps, then returns or raises: a slow task is timed out before either happens)
+        want = ('raise', 'TimeoutError') if slow else natural
+        if slow and op.get('cb_dur') and float(dur.get(str(i), 0)) < 100 and (kind, val) == natural:
             # user callbacks run in the handler threads: while one is being delivered the timeout scan is held up, so a slow
-            # task may complete before its timeout is noticed.  Either outcome is accepted; it still has to be delivered once
-            want = ('ok', value_of(i))
+            # task may complete (or fail by itself) before its timeout is noticed.  Either outcome is accepted; it still has to be
+            # delivered once
+            want = natural
         if (kind, val) != want:
             add('C09', 'value_correct', {'task': i, 'got': (kind, val), 'expected': want})
-        elif i in f.get('at', ()):
+        elif i in f.get('at', ()) and want == natural:
             got = (o.get('apply_exc') or {}).get(str(i)) or {}
             raised = [r for r in obs.get('raised', []) if r.get('opi', opi) == opi]
             if not any(r['type'] == got.get('type') and r['args'] == got.get('args') and r['attrs'] == got.get('attrs') for r in raised):
